@@ -23,7 +23,8 @@ What is abstract: parsing + `PayloadBuilder::build` is the parameter `Assembler`
 (the driver instantiates it with `CamVerif.Stream` = the C11 model); the environment decides
 between "transfer completes" and "poll times out" (`Step.pollPending`) and may fail any submit.
 A cancelled transfer completes with `Timeout` and no data (libusb CANCELLED), possibly reported up
-to `maxLate` polls late (`reapLate`); the libusb race "completed just before the cancel" is not modelled.  `StreamParams` come from u32 registers,
+to `maxLate` polls late (`reapLate`); a transfer that had already FAILED when it was cancelled is
+reaped with its error status (`reapFault`); only "completed WITH DATA just before the cancel" is not modelled.  `StreamParams` come from u32 registers,
 hence `maximum_payload_size` cannot overflow a 64-bit usize; no `Profile` is needed.
 -/
 import CamVerif.Prelude.Basic
@@ -243,16 +244,19 @@ inductive Step where
   | pollOverflow
   | pollFault
   | pollPending
+  | pollErr (e : SErr)
   | parse
   | trySend
   | cancelNext
   | reapOne
+  | reapFault
   | reapLate
   | iterEnd
   | exit
   | rxRecv
   | rxNone
   | rxSendBack (id : Nat)
+  | rxSendForeign (bs : Bytes)
   | rxDrop (id : Nat)
   | rxClose
   | stopCall
@@ -262,7 +266,7 @@ inductive Step where
   deriving Repr, DecidableEq, BEq
 
 def Step.isLoop : Step → Bool
-  | .rxRecv | .rxNone | .rxSendBack _ | .rxDrop _ | .rxClose | .stopCall | .stopBlock | .stopDisc | .closeDone => false
+  | .rxRecv | .rxNone | .rxSendBack _ | .rxSendForeign _ | .rxDrop _ | .rxClose | .stopCall | .stopBlock | .stopDisc | .closeDone => false
   | _ => true
 
 /-- `Vec::resize(max, 0)` -/
@@ -397,6 +401,15 @@ def stepPollPending (s : State) : Option State :=
     | [] => none
   else none
 
+/-- The event loop itself failed (`libusb_handle_events` error, `poll_completed(..)?`): `poll`
+returns the error without reaping anything; the loop reports it and gives the frame up. -/
+def stepPollErr (e : SErr) (s : State) : Option State :=
+  if s.pc = .poll ∧ e ≠ .invalidPayload then
+    match s.pending with
+    | _ :: _ => some { s with faults := s.faults + 1, pc := .send (.err e) }
+    | [] => none
+  else none
+
 /-- `payload_len - last_buf_len.unwrap()`, the gap check, `Leader::parse`, `Trailer::parse`,
 block id check, `build`. -/
 def stepParse (s : State) : Option State :=
@@ -463,9 +476,25 @@ def stepReapOne (s : State) : Option State :=
     | [] => none
   | _ => none
 
+/-- The same loop, but the front transfer had already failed when it was cancelled (e.g. the device
+was unplugged: every pending transfer completes with NO_DEVICE): the cancel has no effect, the
+poll reaps the transfer with ITS error status — which `Drop` ignores — and the loop goes on with
+the next transfer. -/
+def stepReapFault (s : State) : Option State :=
+  match s.pc with
+  | .drop c =>
+    match s.pending, script[s.consumed]? with
+    | _ :: rest, some (.fault _) =>
+      if c = s.pending.length then
+        some { s with pc := .drop (c - 1), pending := rest, consumed := s.consumed + 1, late := 0,
+                      faults := s.faults + 1 }
+      else none
+    | _, _ => none
+  | _ => none
+
 /-- The same loop of `AsyncPool::drop`, but the completion of the cancelled front transfer has not
-been reported yet (cancellation is asynchronous): `poll` returns `Timeout` without reaping and the
-`while !self.is_empty()` loop polls again.  At most `maxLate` times per transfer (environment). -/
+been reported yet (cancellation is asynchronous) or the event loop failed: `poll` returns an
+error without reaping and the `while !self.is_empty()` loop polls again.  At most `maxLate` times per transfer (environment). -/
 def stepReapLate (s : State) : Option State :=
   match s.pc with
   | .drop c =>
@@ -517,6 +546,17 @@ def stepRxSendBack (id : Nat) (s : State) : Option State :=
     | none => none
   else none
 
+/-- `send_back` of a payload this loop did not produce (kept from an earlier session with another
+layout, or from another camera): a buffer of arbitrary length and content enters the send-back
+channel.  `stepObtainBack` resizes it. -/
+def stepRxSendForeign (bs : Bytes) (s : State) : Option State :=
+  if s.rxAlive then
+    if s.senderAlive ∧ s.back.length < P.bufCap then
+      some { s with nextBuf := s.nextBuf + 1,
+                    back := s.back ++ [OkMsg.mk (Buf.mk s.nextBuf bs) 0 0 0 0 []] }
+    else some { s with nextBuf := s.nextBuf + 1, freed := s.nextBuf :: s.freed }
+  else none
+
 def stepRxDrop (id : Nat) (s : State) : Option State :=
   match takeHeld id s.held with
   | some (m, rest) => some { s with held := rest, freed := m.buf.id :: s.freed }
@@ -557,16 +597,19 @@ def step (s : State) : Step → Option State
   | .pollOverflow => stepPollOverflow script s
   | .pollFault => stepPollFault script s
   | .pollPending => stepPollPending s
+  | .pollErr e => stepPollErr e s
   | .parse => stepParse A s
   | .trySend => stepTrySend P s
   | .cancelNext => stepCancelNext s
   | .reapOne => stepReapOne s
+  | .reapFault => stepReapFault script s
   | .reapLate => stepReapLate P s
   | .iterEnd => stepIterEnd s
   | .exit => stepExit s
   | .rxRecv => stepRxRecv s
   | .rxNone => stepRxNone s
   | .rxSendBack id => stepRxSendBack P id s
+  | .rxSendForeign bs => stepRxSendForeign P bs s
   | .rxDrop id => stepRxDrop id s
   | .rxClose => stepRxClose s
   | .stopCall => stepStopCall s
@@ -578,8 +621,9 @@ def step (s : State) : Step → Option State
 def candidates (s : State) : List Step :=
   [.checkCancel, .obtainReuse, .obtainBack, .obtainAlloc, .submitOk,
    .submitFail .io, .submitFail .disconnected, .submitFail .timeout,
-   .pollOk, .pollOverflow, .pollFault, .pollPending, .parse, .trySend,
-   .cancelNext, .reapOne, .reapLate, .iterEnd, .exit, .rxRecv, .rxNone, .rxClose, .stopCall, .stopBlock, .stopDisc, .closeDone]
+   .pollOk, .pollOverflow, .pollFault, .pollPending, .pollErr .io, .pollErr .disconnected,
+   .pollErr .timeout, .rxSendForeign [], .parse, .trySend,
+   .cancelNext, .reapOne, .reapFault, .reapLate, .iterEnd, .exit, .rxRecv, .rxNone, .rxClose, .stopCall, .stopBlock, .stopDisc, .closeDone]
   ++ s.held.map (fun m => .rxSendBack m.buf.id)
   ++ s.held.map (fun m => .rxDrop m.buf.id)
 
